@@ -8,6 +8,7 @@ printer and the Lean printer produce the same text for the same (content, layout
 content = {'v': [hline..], 'sects': [{'kind': 'H'|'T', 'typ': 'W', 'lines': [hline|str ..]} ..], 'frames': [[cell..]..]}
 hline   = {'mnem': str, 'unit': str, 'value': ['i', int] | ['f', m, e] | ['b', 0|1] | ['t', str], 'desc': str}
 cell    = ['n', m, e]  (the decimal m*10**e)  |  ['x', str]  (a token that is not a number)
+          | ['l', str, m, e]  (a number written as the literal token str, e.g. '123', '-0.00', '+1.5E3', '.5')
 layout  = {'v': sectlay, 'sects': [sectlay..], 'a': sectlay, 'rows': [rowlay..], 'tail': [junk..]}
 sectlay = {'junk': [junk..], 'lead': n, 'title': str, 'lines': [hpad..]}
 hpad    = {'junk': [junk..], 'lead': n, 'a': n, 'b': n, 'c': n, 'd': n, 'e': n, 'k': n}
@@ -62,7 +63,7 @@ def print_value(v, k):
 
 
 def print_cell(c, k):
-    return print_num(c[1], c[2], k) if c[0] == 'n' else c[1]
+    return print_num(c[1], c[2], k) if c[0] == 'n' else c[1]      # 'x' bad token, 'l' literal numeric token
 
 
 def _one_line(s):
@@ -216,7 +217,8 @@ def expected(content, null=NULL_DEFAULT):
     for s in content['sects']:
         sections.append([s['typ'], [eline(l) if s['kind'] == 'H' else ['R', l] for l in s['lines']]])
     names = [[['t', h['mnem']], ['t', h['unit']]] for h in curves_of(content)]
-    frames = [[_fhex(dec_to_float(c[1], c[2])) if c[0] == 'n' else _fhex(null) for c in row] for row in content['frames']]
+    frames = [[_fhex(dec_to_float(c[1], c[2])) if c[0] == 'n' else _fhex(dec_to_float(c[2], c[3])) if c[0] == 'l' else _fhex(null)
+               for c in row] for row in content['frames']]
     return {'sections': sections, 'array': {'names': names, 'frames': frames}}
 
 
@@ -249,7 +251,8 @@ def tokens_content(c):
     for row in c['frames']:
         t.append(str(len(row)))
         for cell in row:
-            t += ['n', str(cell[1]), str(cell[2])] if cell[0] == 'n' else ['x', _hx(cell[1])]
+            t += (['n', str(cell[1]), str(cell[2])] if cell[0] == 'n' else ['l', _hx(cell[1]), str(cell[2]), str(cell[3])]
+                  if cell[0] == 'l' else ['x', _hx(cell[1])])
     return t
 
 
@@ -369,6 +372,21 @@ SPECIAL_WORD_CURVES = [('TIME', 'MS'), ('TIME', 'S'), ('TIME', ''), ('TIME', 'D'
                        ('X', 'D'), ('DEPT', 'D'), ('time', 'HHMMSS'), ('Date', 'D'), ('TIMES', 'HHMMSS'), ('DATES', 'D')]
 
 
+def gen_literal(rng):
+    """A number in one of the spellings of the numeric grammar that the layout styles do not produce."""
+    n, a, b = rng.randint(0, 10 ** rng.randint(1, 9)), rng.randint(0, 9999), rng.randint(0, 30)
+    sg, sv = rng.choice([('', 1), ('-', -1), ('+', 1)])
+    fr = ''.join(rng.choice('0123456789') for _ in range(rng.randint(1, 6)))
+    k = rng.randrange(7)
+    if k == 0: return ['l', f'{sg}{n}', sv * n, 0]                                   # no decimal point ('.0f')
+    if k == 1: return ['l', '-0.' + '0' * len(fr), 0, -len(fr)]                       # negative zero text
+    if k == 2: return ['l', f'{sg}{a}E{b}', sv * a, b]
+    if k == 3: return ['l', f'{sg}.{fr}', sv * int(fr), -len(fr)]
+    if k == 4: return ['l', f'{sg}{n}.', sv * n, 0]
+    if k == 5: return ['l', f'{sg}{a}.{fr}e-{b}', sv * int(str(a) + fr), -len(fr) - b]
+    return ['l', f'{sg}00{n}.{fr}E+0{b}', sv * int(str(n) + fr), b - len(fr)]
+
+
 def near_null(rng, nm, ne):
     """A data value close to but different (as a double) from the null nm*10**ne: NULL +- k ulp-ish, NULL*(1 +- 1e-j),
     NULL +- 10**-q.  Falls back to the exact null when the candidate rounds to the same double."""
@@ -452,6 +470,8 @@ def gen_content(rng, max_curves=6, max_frames=8, wrap=None, null=None, bad_rate=
                 row.append(rng.choice([['n', nm, ne], ['n', nm * 100, ne - 2], ['n', -99925, -2]]))
             elif rng.random() < 0.08:
                 row.append(near_null(rng, nm, ne))
+            elif rng.random() < 0.06:
+                row.append(gen_literal(rng))
             else:
                 m, e = gen_decimal(rng, emax=rng.choice([3, 20, 320]))
                 row.append(['n', m, e])
